@@ -184,6 +184,6 @@ fn run(c: &Case) -> Outcome {
 fn main() {
     let check = Check::new("C05", "exploration");
     check.rule("SaseEngine (built from VPL through the public compiler functions) with every backpressure strategy (drop, error, evict-oldest, evict-least-progress, sample 0/.3/.5/1), max_runs 1-8, optional Kleene caps (events 1-6, results 1-39), partitioned or not, five pattern shapes (A->B->C, A->all B [self-ref]->C, A->all B, all A->B), adversarial streams of 20-120 events (60% start events, bursts, rare completions, missing keys), via process() or process_with_result(). Invariants after every event from SaseEngine::checkpoint()/extended_stats(): runs per partition <= max_runs, stats agree with state, Kleene events per run <= cap, matches per completion and start <= cap, counters monotone, no panic. Non-trivial = the limit was actually hit (a run dropped or evicted).");
-    check.explore("bounds", strat, 6_000, 100_000, run);
+    check.explore("bounds", strat, 15_000, 150_000, run);
     check.finish();
 }
